@@ -29,9 +29,12 @@ COQ_TARGETS = ['theories/Conv/Harness.vo']
 TRUSTED = [
     'py/checks/C16.py: the mathematical definitions used by the search (representable, v mod 2^w, minimal '
     'width, signed interpretation, positional digits, bit-pattern packing) written in plain Python',
-    'coq/theories/Conv/Str.v: hand model of the string-handling part of _convert_verilog_str, of '
-    'formatted_str_to_val/val_to_formatted_str, bitpattern_to_val and a value-level match_bitpattern '
-    '(tied behaviourally; the verilog string part additionally by textual identity of its AST in genfrag_C16)',
+    'coq/theories/Conv/Str.v: hand models of Python int()/str()/bin()/hex(), of the control skeleton of the '
+    'string part of _convert_verilog_str (its table, character literals and default radix are generated; the '
+    'skeleton is frozen by AST identity in genfrag_C16 and proved to parse every printed constant), of the '
+    'Const call sequence validate/infer/post-checks/validate (proved equal to validate-then-infer), of '
+    'formatted_str_to_val/val_to_formatted_str, bitpattern_to_val and a value-level match_bitpattern (proved '
+    'mutually inverse; match_bitpattern itself is tied to the real circuit by simulation only)',
 ]
 ASSUMPTIONS = [
     'arguments are Python ints/bools/strs (isinstance(x, WireVector) is false in the model)',
